@@ -17,7 +17,9 @@ EXPORTERS_T = EXPORTERS_Q + ["jsonsort", "dotlabels", "getprovn"]
 def run(tier, seed):
     quick = tier != "thorough"
     exps = EXPORTERS_Q if quick else EXPORTERS_T
-    runs = [("shapes", 2, "min", ["entity", "generation"]), ("ns", 2 if quick else 3, "min", ["entity"])]
+    runs = [("shapes", 2, "min", ["entity", "generation"]), ("ns", 2 if quick else 3, "min", ["entity"]),
+            # a document that cannot be unified: exporters that unify first must still leave it alone
+            ("conflict", 1, "min", ["entity"])]
     if not quick:
         runs.append(("shapes", 1, "values", ["entity", "association", "membership"]))
     behaviours = []
